@@ -22,7 +22,7 @@ def lfForm (text : Text) : Option Text :=
     `H` hypotheses of C09_step, `C` its conclusion on what lint's decoder reads, `R` the template renders the contributors
     (`Spec.rendersCon`), `K` conclusion of C09_step_contributors, `D:` the single hypotheses
     (merge, style, line boundaries, ignore old, ignore new, clean seam, above, old block, new block, LF form);
-    `M` hypotheses of C09_step_merge and `Spec.mergeReadsBack` (LF files), `N` the conclusions of C09_history_merge for this
+    `M` hypotheses of C09_step_merge and `Spec.mergeReadsBack` (for CRLF / CR files on the LF text behind the file: C09_step_form), `N` the conclusions of C09_history_merge for this
     step: licences, holders kept, every year stated before covered -/
 def stepC09 (fields : List String) : Option String :=
   match fields with
@@ -44,7 +44,7 @@ def stepC09 (fields : List String) : Option String :=
       match annotateText o.c o.replace o.skipExisting o.info text with
       | .written out =>
         match lfForm text with
-        | none => pure "H0|C0|R0|K0|D:----------0|M0|N0"
+        | none => pure "H0|C0|R0|K0|D:----------0|M0|N0|E:---"
         | some u =>
           let o' : Spec.Op := { o with skipExisting := false }
           -- the LF result the theorems speak about
@@ -53,7 +53,7 @@ def stepC09 (fields : List String) : Option String :=
             | .written x => if decide (NoCR x) then some x else none
             | _ => none
           match t' with
-          | none => pure "H0|C0|R0|K0|D:----------0|M0|N0"
+          | none => pure "H0|C0|R0|K0|D:----------0|M0|N0|E:---"
           | some t' =>
             let s := sectionsOf o'.c o'.replace u
             let hNew := match newHeaderOf o' u with
@@ -67,13 +67,14 @@ def stepC09 (fields : List String) : Option String :=
             let concl := declaresB c.normLic after (before.cpr ++ info.cpr) (before.lic ++ info.lic)
             let ren := rendersCon o' u
             let conclCon := (before.con ++ info.con).all (after.con.contains ·)
-            let hypM := u == text && stepGoodMergeB o' u t' && mergeReadsBack o' u
+            let hypM := stepGoodMergeB o' u t' && mergeReadsBack o' u
             let wanted := before.cpr ++ info.cpr
             let conclM := (before.lic ++ info.lic).all (fun x => (after.lic.map c.normLic).contains (c.normLic x)) &&
               (holdersOf wanted).all (fun s => (holdersOf after.cpr).contains s &&
                 (yearsIn wanted s).all (fun z => yearCoveredB after.cpr s z))
             pure ("H" ++ encodeBool hyp ++ "|C" ++ encodeBool concl ++ "|R" ++ encodeBool ren ++ "|K" ++ encodeBool conclCon ++
-                  "|D:" ++ String.join (d.map encodeBool) ++ "|M" ++ encodeBool hypM ++ "|N" ++ encodeBool conclM)
+                  "|D:" ++ String.join (d.map encodeBool) ++ "|M" ++ encodeBool hypM ++ "|N" ++ encodeBool conclM ++
+                  "|E:" ++ encodeBool (u == text) ++ encodeBool (stepGoodMergeB o' u t') ++ encodeBool (mergeReadsBack o' u))
       | _ => pure "-"
   | _ => none
 
